@@ -75,6 +75,13 @@ theorem C12_break (s : State) (hb : s.blind.isBreaking = true) :
   have : (s.blind.level == -1) = true := hb
   simp [this]
 
+/-- `CreateTable` (regenerated from table_engine.go): a table whose blind level is −1 is created `pausing`, and the only
+other status it can be given at creation — `balancing`, for an MTT table created with players — is guarded by "not
+pausing": exactly the two rules of `create` / `createJoin` -/
+theorem C12_create_status_fact : Facts.createStatusRules =
+    ["tableSetting.Blind.Level == -1 => status = TableStateStatus_TablePausing",
+     "table.Meta.Mode == CompetitionMode_MTT && table.State.Status != TableStateStatus_TablePausing => table.State.Status = TableStateStatus_TableBalancing"] := rfl
+
 /-- **C12 — a table created on a break starts paused, with or without players**: `CreateTable` with `JoinPlayers` adds the
 players as a batch join and turns an MTT table `balancing` — except on a break, where it stays `pausing`, whatever the
 mode, the players and the outcome of seating them -/
